@@ -14,13 +14,15 @@ import (
 // valJSON renders a variant as the value record of VariantOps.tla.
 func valJSON(v *variants.Variant) Ev {
 	if v == nil {
-		return Ev{"t": "nil", "s": "", "c": []int{}, "k": "none", "n": 0, "u": "", "w": false}
+		return Ev{"t": "nil", "s": "", "c": []int{}, "k": "none", "n": 0, "u": "", "w": false, "z": false}
 	}
 	e := Ev{"t": vtypeNames[v.Type()], "k": "none", "n": 0, "u": "", "w": false}
 	small := func(x int64) bool { return x >= -(1<<20) && x <= (1<<20) }
+	e["z"] = false
 	frac := func(f float64) {
 		if f == 0 {
-			f = 0 // negative zero is the same value as zero
+			e["z"] = math.Signbit(f) // the sign of a zero, kept apart: -0 and 0 are the same value but not the same result of an operator
+			f = 0
 		}
 		e["s"] = strconv.FormatFloat(f, 'g', -1, 64)
 		if !math.IsNaN(f) && !math.IsInf(f, 0) && math.Abs(f) < (1<<20) && f*8 == math.Trunc(f*8) {
@@ -243,6 +245,8 @@ func poolOf(full bool) []*variants.Variant {
 	return c06pool
 }
 
+var strBytes string
+
 func execC06(seg []Ev) []Ev {
 	out := make([]Ev, 0, len(seg))
 	// state of a history segment ("bstep" events): one long-lived manager, two reusable operand objects, results kept
@@ -339,6 +343,28 @@ func execC06(seg []Ev) []Ev {
 			e["outcome"], e["r"] = oc, valJSON(r)
 			if det != "" {
 				e["detail"] = det
+			}
+			// the host's own unary operator on the native type
+			if name == "Negative" {
+				switch a.Type() {
+				case variants.Integer:
+					e["host"] = valJSON(variants.VariantFromInteger(-a.AsInteger()))
+				case variants.Long:
+					e["host"] = valJSON(variants.VariantFromLong(-a.AsLong()))
+				case variants.Float:
+					e["host"] = valJSON(variants.VariantFromFloat(-a.AsFloat()))
+				case variants.Double:
+					e["host"] = valJSON(variants.VariantFromDouble(-a.AsDouble()))
+				}
+			} else {
+				switch a.Type() {
+				case variants.Integer:
+					e["host"] = valJSON(variants.VariantFromInteger(^a.AsInteger()))
+				case variants.Long:
+					e["host"] = valJSON(variants.VariantFromLong(^a.AsLong()))
+				case variants.Boolean:
+					e["host"] = valJSON(variants.VariantFromBoolean(!a.AsBoolean()))
+				}
 			}
 		case "cmp":
 			c := func(name string, x, y *variants.Variant) string {
@@ -499,11 +525,25 @@ func execC06(seg []Ev) []Ev {
 			elems := []*variants.Variant{variants.VariantFromInteger(1), variants.VariantFromString("x"), variants.VariantFromInteger(1)}
 			var cont *variants.Variant
 			str := []rune("aé日z")
+			if t, ok := in["text"]; ok { // a container text given byte by byte (it need not be well-formed UTF-8)
+				bs := toList(t)
+				b := make([]byte, len(bs))
+				for j, x := range bs {
+					b[j] = byte(toInt(x))
+				}
+				str = []rune(string(b))
+				e["text"] = t
+				defer func() {}()
+				kind = "string"
+				strBytes = string(b)
+			} else {
+				strBytes = string(str)
+			}
 			if kind == "array" {
 				cont = variants.VariantFromArray(elems)
 				e["len"] = len(elems)
 			} else {
-				cont = variants.VariantFromString(string(str))
+				cont = variants.VariantFromString(strBytes)
 				e["len"] = len(str)
 			}
 			oc, r, det := opOutcome(func() (*variants.Variant, error) { return m.GetElement(cont, a) })
@@ -565,6 +605,18 @@ func genC06(g *Gen) {
 	full := true // the complete boundary pool is cheap enough for every run
 	if g.Thorough() {
 		c06extraSeed = g.Seed
+	}
+	// indexing into texts that are not well-formed UTF-8 (every index, also exactly at the undecodable bytes)
+	for _, b := range [][]byte{[]byte("\xffabc"), []byte("ab\xff"), []byte("a\xe2\x82b"), []byte("\xc3"), []byte("\xed\xa0\x80z"), []byte("é\xffé"), []byte("x\x00y")} {
+		bl := make([]any, len(b))
+		for j, x := range b {
+			bl[j] = int(x)
+		}
+		for _, mgr := range []string{"unsafe", "safe"} {
+			for ai := 0; ai < 9; ai++ { // the first pool entries: null and the small integers / longs
+				g.Run("indexing into texts that are not well-formed UTF-8", []Ev{{"op": "elem", "mgr": mgr, "kind": "string", "ai": ai, "full": full, "text": bl, "xseed": int(c06extraSeed)}})
+			}
+		}
 	}
 	n := len(valuePool(full))
 	nw := len(widePool())
